@@ -246,7 +246,7 @@ func guardsHold(fn *ssa.Function, flow *an.ErrFlow, guards []string) string {
 		for _, g := range guards {
 			switch {
 			case g == "nosuchkey":
-				if !an.GuardedByCall(b, "errors", "As") || !an.GuardedByStringEq(b, "Code", "NoSuchKey") {
+				if !an.GuardedByNoSuchKey(b) {
 					return "when errors.As(err,&awsErr) && awsErr.Code()==NoSuchKey holds"
 				}
 			case strings.HasPrefix(g, "param:"):
